@@ -399,7 +399,7 @@ func scribble(m protoreflect.Message, depth int) {
 				}
 			}
 			if fd.Message() == nil {
-				ls.Append(bump(fd, fd.Default()))
+				ls.Append(bump(fd, ls.NewElement()))
 			}
 		case fd.Message() != nil:
 			if m.Has(fd) {
